@@ -195,7 +195,7 @@ func (b *trzszBuffer) readLineOnWindows(timeout <-chan time.Time) ([]byte, error
 		newLineIdx := bytes.IndexByte(buf, '!')
 		if newLineIdx >= 0 {
 			b.nextIdx += newLineIdx + 1 // +1 to ignroe the newline
-			if b.nextIdx < len(buf) && buf[b.nextIdx] == '\n' {
+			if newLineIdx+1 < len(buf) && buf[newLineIdx+1] == '\n' {
 				b.nextIdx++
 			}
 			buf = buf[0:newLineIdx]
